@@ -53,7 +53,11 @@ def run(tier, pid):
     samples = []
     per_unit = []
     merged = {}
+    observed = []
     for r in pmap(_unit, units):
+        if len(observed) < 3 and r.get("last_history"):
+            observed.append({"universe": r["unit"][0], "fee": list(r["unit"][1]), "history": r["last_history"],
+                             "meaning": "an actual history explored by this run (the last new state of its unit)"})
         rep.add("states", r["states"])
         rep.add("transitions", r["transitions"])
         rep.add("traces_validated_against_impl", r["transitions"])
@@ -91,7 +95,7 @@ def run(tier, pid):
     rep.set("exhaustive", not any(u["capped"] for u in per_unit))
     rep.set("bound", "every history of at most depth operations over the alphabet, per unit; units marked split_by_first_operation "
                      "deduplicate per first operation, so their state count is an upper bound on the distinct states")
-    rep.set("samples", [
+    rep.set("samples", observed + [
         {"universe": "spot1+fut", "history": [["q", 1, 1], ["t", 1, 1.0], ["t", 1, 1.0], ["v"]],
          "meaning": "quote F 100/104, buy 1 F, buy 1 F, value: lock-step ledger comparison after each op"},
         {"universe": "spot4+fut", "history": [["t", 0, 2.0], ["q", 0, 2], ["r", 1]],
